@@ -22,6 +22,7 @@ REPO = os.environ.get("VERIF_REPO", "/repo")
 BUILD = os.path.join(VERIF, "build")
 LEAN = os.path.join(VERIF, "lean")
 OVERLAY = os.path.join(VERIF, "harness", "overlay")
+SEARCH_BUDGET_S = 240   # wall-clock bound of the widened search pass of a failing quick run (per harness and for starting new ones)
 ALLOWED_AXIOMS = {"propext", "Classical.choice", "Quot.sound"}
 FORBIDDEN = re.compile(r"\b(sorry|admit|native_decide|bv_decide|implemented_by|unsafe)\b|^\s*axiom\s|maxHeartbeats\s+0\b")
 HELPER_MAP = {os.path.join(REPO, "pkg/util/verifh/verifh.go"): os.path.join(VERIF, "harness/verifh/verifh.go")}
@@ -459,8 +460,14 @@ class Check:
         cfg = self.cfg
         known = load_known()
         tot_eval, tags, distinct, samples, per_h = 0, {}, set(), [], []
+        searching = getattr(self, "search_factor", 1) > 1
+        t_search0 = time.time()
         for h in cfg.get("harness", []):
             if replay and replay.get("harness") != h["name"]:
+                continue
+            # the search pass (an obligation / the correspondence broke, no failing input yet) is bounded: harnesses
+            # marked no_search are not re-run, and no further harness is started after SEARCH_BUDGET_S seconds
+            if searching and (h.get("no_search") or time.time() - t_search0 > SEARCH_BUDGET_S):
                 continue
             hres = {"name": h["name"], "pkg": h["pkg"]}
             per_h.append(hres)
@@ -478,6 +485,8 @@ class Check:
             elif getattr(self, "search_factor", 1) > 1 and not h.get("no_search"):
                 n = n * self.search_factor
             tmo = h.get("timeout_s", {}).get(self.tier, 900)
+            if searching:
+                tmo = min(tmo, SEARCH_BUDGET_S)
             base = os.path.join(BUILD, "run_%s_%s" % (self.pid, h["name"]))
             case_files = []
             # corpus of minimised past failures first
